@@ -23,6 +23,8 @@ def configs(tier):
             if script == "S2":
                 d -= 1
             c.append(("tp=%s,script=%s,style=%s,%s" % (tp, script, style, M), d))
+        # the accepted (server-side) socket as the sender of a write that spans several TLS records
+        c.append(("tp=%s,script=S4,style=spec,%s" % (tp, M), (dq if q else dt) - 1))
         c.append(("tp=%s,script=S1,ma=b,mb=b,%s" % (tp, M), dq if q else dt))
         c.append(("tp=%s,script=S3,ma=b,mb=b,%s" % (tp, M), (dq if q else dt) - 1))
         c.append(("tp=%s,script=S2,ma=b,mb=nb,%s" % (tp, M), (dq if q else dt) - 1))
